@@ -236,6 +236,25 @@ def independent_gates_cases():
                     yield f"{kind} gates, producers in {s1}/{s2}{' (repaired)' if repaired else ''}", {"name": "g", "nodes": nodes, "bind": {}}, repaired
 
 
+def shared_name_reach_cases():
+    """Two producers m, p of `r` that BOTH run on one branch: branch b2 produces the shared name `w` (also produced,
+    first, by branch b1) and `u`; m reads w, p reads u.  m is downstream of both branches, so m and p are not exclusive
+    (and not ordered): must be rejected whichever order the branches are listed in.  Repaired (p -> r2) is accepted.
+    Yields (label, spec, must_accept)."""
+    for kind in ("ifelse", "route"):
+        for first in ("b1", "b2"):
+            for order in ("mp", "pm"):
+                for repaired in (False, True):
+                    gate = ({"k": "ifelse", "name": "g", "params": [{"n": "k"}], "t": "b1", "f": "b2", "table": [True, False]} if kind == "ifelse"
+                            else {"k": "route", "name": "g", "params": [{"n": "k"}], "targets": ["b1", "b2"], "table": ["b1", "b2"]})
+                    b1 = {"k": "fn", "name": "b1", "params": [{"n": "k"}], "outs": ["w"]}
+                    b2 = {"k": "fn", "name": "b2", "params": [{"n": "k"}], "outs": ["w", "u"]}
+                    m = {"k": "fn", "name": "m", "params": [{"n": "w"}], "outs": ["r"]}
+                    p = {"k": "fn", "name": "p", "params": [{"n": "u"}], "outs": ["r2" if repaired else "r"]}
+                    nodes = [gate] + ([b1, b2] if first == "b1" else [b2, b1]) + ([m, p] if order == "mp" else [p, m])
+                    yield f"{kind}, {first} listed first, {order}{' (repaired)' if repaired else ''}", {"name": "g", "nodes": nodes, "bind": {}}, repaired
+
+
 def try_build(spec):
     from hypergraph import GraphConfigError
 
@@ -558,6 +577,17 @@ def run(ctx):
             elif not ok and st == "other-error":
                 ctx.violation("C19:flaw-wrong-error:duplicate-producer-under-independent-gates", f"{label}: raised {e!r}", case)
         ctx.case({"directed": "independent-gates"}, True)
+        for label, spec, ok in shared_name_reach_cases():
+            st, e = try_build(spec)
+            ctx.obs["flaws_injected" if not ok else "must_accept_checked"] += 1
+            case = {"flawed": spec, "flaw": "duplicate-producer-downstream-of-shared-name", "position": label}
+            if ok and st != "accepted":
+                ctx.violation("C19:valid-graph-rejected:shared-name-reach", f"{label}: rejected: {e!r}", case)
+            elif not ok and st == "accepted":
+                ctx.violation("C19:flaw-accepted:duplicate-producer-downstream-of-shared-name", f"{label}: two producers of 'r' that both run on branch b2 were accepted", case)
+            elif not ok and st == "other-error":
+                ctx.violation("C19:flaw-wrong-error:duplicate-producer-downstream-of-shared-name", f"{label}: raised {e!r}", case)
+        ctx.case({"directed": "shared-name-reach"}, True)
     for i in range(n):
         rng = ctx.rng
         r = rng.random()
